@@ -62,7 +62,29 @@ func runRule(c *Ctx, id string) (res RuleResult) {
 		res.Instances = append(res.Instances, Instance{Rule: id, Func: "-", Construct: "vacuity", Verdict: Undecided,
 			Detail: fmt.Sprintf("only %d instances found, at least %d were confirmed by hand on the reference tree: the rule no longer finds its anchors", len(run.out), r.Min)})
 	}
+	// every kind of obligation confirmed on the reference tree must still be found (function names and multiplicities
+	// may change, the kinds may not): a check whose site was deleted must not pass by having nothing to check
+	have := map[string]bool{}
+	for _, in := range run.out {
+		have[baseLabel(in.Construct)] = true
+	}
+	for _, want := range expectedLabels[id] {
+		if !have[want] {
+			res.Instances = append(res.Instances, Instance{Rule: id, Func: "-", Construct: "missing: " + want, Verdict: Undecided,
+				Detail: "an obligation of this kind was confirmed on the reference tree and is no longer found: the code it was about was removed or changed beyond recognition"})
+		}
+	}
 	return res
+}
+
+// baseLabel strips the ordinal (#2, #3, …) that distinguishes obligations of one kind in one function.
+func baseLabel(construct string) string {
+	if i := strings.LastIndex(construct, "#"); i > 0 {
+		if _, err := strconv.Atoi(construct[i+1:]); err == nil {
+			return construct[:i]
+		}
+	}
+	return construct
 }
 
 func main() {
@@ -78,6 +100,7 @@ func main() {
 	tags := flag.String("tags", "", "build tags")
 	noEvidence := flag.Bool("no-evidence", false, "do not write evidence files")
 	verbose := flag.Bool("v", false, "print every instance")
+	dumpLabels := flag.Bool("dump-labels", false, "print rule<TAB>obligation kind for every registered rule (to regenerate expected.go)")
 	jsonOut := flag.Bool("json", false, "print rule results as JSON (used by the thorough tier's sub-runs)")
 	flag.Parse()
 	if t := os.Getenv("VERIF_TIER"); t == "quick" || t == "thorough" {
@@ -95,6 +118,24 @@ func main() {
 		os.Exit(2)
 	}
 	c := &Ctx{P: p, Tier: *tier, memo: map[string]any{}}
+	if *dumpLabels {
+		var ids []string
+		for id := range ruleRegistry {
+			ids = append(ids, id)
+		}
+		sort.Strings(ids)
+		for _, id := range ids {
+			seen := map[string]bool{}
+			for _, in := range runRule(c, id).Instances {
+				l := baseLabel(in.Construct)
+				if in.Verdict == Hold && !seen[l] {
+					seen[l] = true
+					fmt.Printf("%s\t%s\n", id, l)
+				}
+			}
+		}
+		return
+	}
 
 	var props []*Property
 	if *all {
